@@ -544,7 +544,16 @@ def model_line(c, out, vals):
         r0len = {0: 0, 1: 12, 2: 1, 3: 8, 4: 61}[c["how"]]
         return "polyseq %s %d %d %d %d %s" % (t["kind"], card(c["p"]), c["seed"], t["bits"] or 32, r0len, " ".join(c["ops"]))
     if fam == "gfqx":
-        return None
+        try:
+            head, draws, tail = [x.strip() for x in out.split("|")]
+            qq, BITS, pceil, degree, pp, tabsize, noncanon, modout = [int(x) for x in head.split()]
+            ds = []
+            for tok in draws.split():
+                x, r, quot = [int(v) for v in tok.split(":")]
+                ds.append("%d:%d" % (x % modout, quot))
+            return "gfqx %d %d %d %d %d %d %d | %s" % (c["w"], BITS, pceil, pp, degree, c["seed"], c["n"], " ".join(ds))
+        except ValueError:
+            return None
     if fam == "gf2ref":
         return "ring gf2 2 %s %d %d 0 8" % (c["op"], c["seed"], c["n"])
     if fam == "poly":
@@ -732,6 +741,7 @@ def main(tier, replay=None):
     ncorr = 0
     dist = {}
     riiseed_cache = {}
+    gfqx_second = []
     for i, c in enumerate(cases):
         out = iout[i]
         fam = c["fam"]
@@ -974,16 +984,35 @@ def main(tier, replay=None):
                 if mout[i] is not None:
                     mcmp = (" ".join(out.split()), " ".join(mout[i].split()))
             elif fam == "gfqx":
-                head, _, tail = out.partition(" | ")
-                toks = head.split()
-                qq = int(toks[0])
-                if qq != c["p"] ** c["e"]:
-                    chk.broke("gfqx: cardinality %d for %d^%d" % (qq, c["p"], c["e"]))
-                for x in toks[1:]:
-                    if not (0 <= int(x) < qq):
-                        fail("GFqExtFast::random", "w=%d; %s" % (c["w"], sc), "exponent in [0, q)", "raw %s" % x); break
+                head, draws, tail = [x.strip() for x in out.split("|")]
+                qq, BITS, pceil, degree, pp, tabsize, noncanon, modout = [int(x) for x in head.split()]
+                site = "GFqExtFast::random" if c["w"] == 32 else "GFqExt::random"
+                if qq != c["p"] ** c["e"] or pp != c["p"] or degree != c["e"] - 1:
+                    chk.broke("gfqx: field parameters %s for %d^%d" % (head, c["p"], c["e"]))
+                # hypotheses of C20_gfqext_random_canonical, checked on the field object of the tree under check
+                if not (pceil > 0 and 2 <= pp <= 2 ** pceil and pceil * c["e"] <= c["w"] and tabsize == 2 ** (pceil * c["e"]) and modout == tabsize - 1):
+                    fail(site, "table geometry; w=%d" % c["w"], "p <= 2^pceil, 2^(pceil*e) table entries, MODOUT = 2^(pceil*e)-1", head)
+                if noncanon:
+                    fail(site, "table entries; w=%d" % c["w"], "every entry of _low2log/_high2log an exponent below q", "%d entries >= q" % noncanon)
+                gx = []
+                for tok in draws.split():
+                    x, r, quot = [int(v) for v in tok.split(":")]
+                    d_ = x % modout
+                    gx.append((x, r))
+                    if not (0 <= r < qq):
+                        fail(site, "w=%d; %s" % (c["w"], sc), "exponent in [0, q)", "generator value %d -> %d" % (x, r)); break
+                    if not (quot == d_ // pp or (d_ % pp == 0 and quot == d_ // pp - 1)):
+                        chk.broke("floating-point quotient (oracle assumption of C20_gfqext_random_canonical): (uint64_t)(%d.0/%d.0) = %d in %s" % (d_, pp, quot, c["line"]))
                 if flag and not (1 <= int(tail) <= M - 1):
-                    fail("GFqExtFast::random", "generator state", "state in [1, M-1]")
+                    fail(site, "generator state", "state in [1, M-1]")
+                if mout[i] is not None and not fails:
+                    mh, _, mt = mout[i].partition(" | ")
+                    mtoks = [t_.split(":") for t_ in mh.split()]
+                    if [int(t_[0]) for t_ in mtoks] != [g_[0] for g_ in gx] or mt.strip() != tail:
+                        chk.broke("correspondence: generator values of the model and of %s differ: model=%s impl=%s" % (c["line"], mout[i][:200], out[:200]))
+                    else:
+                        gfqx_second.append((c, [t_[1] for t_ in mtoks], [g_[1] for g_ in gx]))
+                        ncorr += 1
             elif fam == "ext":
                 head, _, tail = out.partition(" | ")
                 m2 = re.match(r"(\d+) (\d+)(.*)$", head)
@@ -1102,6 +1131,23 @@ def main(tier, replay=None):
                     chk.broke("correspondence: implementation does not return, model does, on %s: model=%s" % (c["line"], b[:200]))
             elif " ".join(a.split()) != " ".join(b.split()) and not fails:
                 chk.broke("correspondence model/implementation differs on %s: model=%s impl=%s" % (c["line"], b[:300], a[:300]))
+    # GFqExtFast::random: the model computed, for every draw, the two table indices; the implementation now evaluates
+    # add(_high2log[ih], _low2log[il]) for them and must find the exponent it returned in the first pass
+    if gfqx_second:
+        rc2, o2, _ = vf.run_lines(himpl, "".join("gfqxchk %d %d %d %s\n" % (c["w"], c["p"], c["e"], " ".join(idx)) for (c, idx, _) in gfqx_second), timeout=900, args=["2000"])
+        if rc2 == 124:
+            chk.cov["inconclusive"] = "second pass for GFqExtFast::random did not finish within 900 s wall clock"
+        elif rc2 != 0 or len(o2) != len(gfqx_second):
+            chk.broke("second harness pass (gfqxchk) failed: rc=%s, %d/%d lines" % (rc2, len(o2), len(gfqx_second)))
+        else:
+            for (c, idx, want), got in zip(gfqx_second, o2):
+                if got.split() != [str(w_) for w_ in want]:
+                    if "OOB" in got:
+                        chk.fail_input("GFqExtFast::random", "table index out of bounds", c, "indices inside the tables", got[:300], "model indices %s" % " ".join(idx))
+                    else:
+                        chk.broke("correspondence: GFqExtFast::random returned %s, add(_high2log[ih], _low2log[il]) at the model's indices %s gives %s (%s)"
+                                  % (want, idx, got[:200], c["line"]))
+        chk.cov["gfqext_draws_tied_through_model_indices"] = sum(len(x[1]) for x in gfqx_second)
     if len(chk.broken) > 20:
         chk.broken = chk.broken[:20] + [{"what": "... %d more" % (len(chk.broken) - 20), "detail": ""}]
     chk.cov["rule"] = ("every call form of GivRandom, of the Integer range constructions (template <true>/<false>/default, by-reference and "
